@@ -267,6 +267,13 @@ class URLInfo(object):
 
             new_hostname = normalize_hostname(new_hostname)
 
+            try:
+                # IDNA mapping (fullwidth digits for example) may have
+                # produced a numeric host only now.
+                new_hostname = normalize_ipv4_address(new_hostname)
+            except ValueError:
+                pass
+
             if any(char in new_hostname for char in FORBIDDEN_HOSTNAME_CHARS):
                 raise ValueError('Invalid hostname: {}'
                                  .format(ascii(hostname)))
